@@ -400,8 +400,7 @@ def canon_dump(evs):
     return sorted(set(out))
 
 
-def compare_names(sec, model):
-    """section of the emitted text vs Model/TraceNames.v on the inputs read off the real objects -> list of differences"""
+def compare_names1(sec, model):
     hyp, regs, dump, feed = model.split("#")
     diffs = []
     t_regs = sorted(set(e[4:] for e in sec if e.startswith("Reg ")))
@@ -417,6 +416,20 @@ def compare_names(sec, model):
     if t_feed != m_feed:
         diffs.append("intersector feeds: only in text %s, only in model %s" % (sorted(set(t_feed) - set(m_feed)), sorted(set(m_feed) - set(t_feed))))
     return hyp == "T", diffs
+
+
+def compare_names(sec, model):
+    """section of the emitted text vs Model/TraceNames.v on the inputs read off the real objects.  The model is evaluated
+    as the compiler stands and with the proposed repair of F8; the section must follow one of the two.
+    -> (hypothesis of the matching variant holds, differences (to the as-is variant when neither matches), variant)"""
+    pinned, repaired = model.split("@")
+    h1, d1 = compare_names1(sec, pinned)
+    if not d1:
+        return h1, [], "as-is"
+    h2, d2 = compare_names1(sec, repaired)
+    if not d2:
+        return h2, [], "repaired"
+    return h1, d1, "neither"
 
 
 def evaluate(progs, tag):
@@ -508,7 +521,8 @@ def run(ctx):
         if names is None:
             teq["not_compared"] += 1
         else:
-            for k, (hyp, diffs) in enumerate(names):
+            for k, (hyp, diffs, variant) in enumerate(names):
+                count(teq, "follows_" + variant)
                 teq["sections_compared"] += 1
                 teq["hypothesis_holds" if hyp else "hypothesis_fails"] += 1
                 if not diffs:
@@ -580,7 +594,7 @@ def replay(ctx, rep):
     print("name model (hypothesis holds, differences) per Einsum:", names)
     want = rep.get("key") or r.get("key")
     if want and want.get("kind") in ("model-correspondence", "model-inconsistent"):
-        bad = names is None or any(d for _, d in names) if want["kind"] == "model-correspondence" else bool(fails)
+        bad = (names is None or any(d for _, d, _ in names)) if want["kind"] == "model-correspondence" else bool(fails)
         if bad:
             print("VIOLATION property=C12 replay=<given file> %s" % want["kind"])
             return 1
